@@ -1489,7 +1489,11 @@ impl<'a, 'b> InternalDelphiLogicalLineParser<'a, 'b> {
         }
 
         let paren_level = self.paren_level;
-        while !(matches!(self.get_token_type::<-1>(), Some(TT::Op(OK::RParen)))
+        let start_pass_index = self.pass_index;
+        // The opening parenthesis is always consumed: a stray `)` directly before it must not be
+        // mistaken for the end of this list (the caller would call again without any progress).
+        while !(self.pass_index != start_pass_index
+            && matches!(self.get_token_type::<-1>(), Some(TT::Op(OK::RParen)))
             && paren_level >= self.paren_level)
         {
             match self.get_current_token_type() {
